@@ -6,7 +6,7 @@
 package streams
 
 //@ func New
-//@   props C08
+//@   props C08 C01
 //@   ensures result != nil && (result.NumStreams == 128 || result.NumStreams == 32768)
 //@   ensures (protocol > 2) == (result.NumStreams == 32768)
 //@   ensures result.numBuckets == uint32(result.NumStreams/64) && len(result.streams) == int(result.numBuckets)
@@ -17,21 +17,21 @@ package streams
 //@   ensures result.streams[0] & (1<<63) != 0 && result.offset < result.numBuckets
 
 //@ func streamFromBucket
-//@   props C08
+//@   props C08 C01
 //@   requires 0 <= bucket && bucket < 512 && 0 <= streamInBucket && streamInBucket < 64
 //@   ensures result == bucket*64 + streamInBucket && result/64 == bucket && result%64 == streamInBucket
 
 //@ func bucketOffset
-//@   props C08
+//@   props C08 C01
 //@   ensures result == i/64
 
 //@ func streamOffset
-//@   props C08
+//@   props C08 C01
 //@   requires stream >= 0
 //@   ensures result == uint64(63 - stream%64) && result < 64
 
 //@ func (s *IDGenerator) GetStream
-//@   props C08
+//@   props C08 C01
 //@   atomic
 //@   shared s.streams[*], s.offset, s.inuseStreams
 //@   requires (s.numBuckets == 2 || s.numBuckets == 512) && len(s.streams) == int(s.numBuckets) && s.NumStreams == int(s.numBuckets)*64
@@ -43,12 +43,12 @@ package streams
 //@   guarantee streams: (new_val ^ old_val) != 0 && (new_val ^ old_val) & ((new_val ^ old_val) - 1) == 0 && old_val & (new_val ^ old_val) == 0
 //@   guarantee inuseStreams: new_val == old_val + 1
 //@   observe streams into seen
-//@   ensures[C08] result1 ==> 1 <= result0 && result0 < s.NumStreams
-//@   ensures[C08] result1 == streams_cas_done
-//@   ensures[C08] result1 ==> streams_cas_count == 1 && streams_cas_idx == result0/64 && streams_cas_old & (1 << uint(63 - result0%64)) == 0 && streams_cas_new == streams_cas_old | (1 << uint(63 - result0%64))
-//@   ensures[C08] result1 ==> inuseStreams_add_count == 1 && inuseStreams_add_sum == 1
-//@   ensures[C08] !result1 ==> inuseStreams_add_count == 0 && streams_cas_count == 0 && result0 == 0
-//@   ensures[C08] !result1 ==> forall(uint32(w), w < s.numBuckets, seen[int(w)] == ^uint64(0))
+//@   ensures[C01,C08] result1 ==> 1 <= result0 && result0 < s.NumStreams
+//@   ensures[C01,C08] result1 == streams_cas_done
+//@   ensures[C01,C08] result1 ==> streams_cas_count == 1 && streams_cas_idx == result0/64 && streams_cas_old & (1 << uint(63 - result0%64)) == 0 && streams_cas_new == streams_cas_old | (1 << uint(63 - result0%64))
+//@   ensures[C01,C08] result1 ==> inuseStreams_add_count == 1 && inuseStreams_add_sum == 1
+//@   ensures[C01,C08] !result1 ==> inuseStreams_add_count == 0 && streams_cas_count == 0 && result0 == 0
+//@   ensures[C01,C08] !result1 ==> forall(uint32(w), w < s.numBuckets, seen[int(w)] == ^uint64(0))
 //@   loop 0: invariant !streams_cas_done && streams_cas_count == 0 && inuseStreams_add_count == 0 && inuseStreams_add_sum == 0
 //@   loop 0: invariant forall(uint32(w), seen[int(w)] == 0)
 //@   loop 1: invariant !streams_cas_done && streams_cas_count == 0 && inuseStreams_add_count == 0 && inuseStreams_add_sum == 0
@@ -64,7 +64,7 @@ package streams
 //@   loop 3: invariant forall(uint32(w), w < s.numBuckets, ((w + s.numBuckets - offset) % s.numBuckets < i) ==> seen[int(w)] == ^uint64(0))
 
 //@ func (s *IDGenerator) Clear
-//@   props C08
+//@   props C08 C01
 //@   atomic
 //@   shared s.streams[*], s.inuseStreams
 //@   requires (s.numBuckets == 2 || s.numBuckets == 512) && len(s.streams) == int(s.numBuckets) && s.NumStreams == int(s.numBuckets)*64
@@ -73,9 +73,9 @@ package streams
 //@   atomic_inv inuseStreams_add_count == 0 ==> s.inuseStreams >= 1
 //@   guarantee streams: idx == stream/64 && old_val & (1 << uint(63 - stream%64)) != 0 && new_val == old_val & ^(1 << uint(63 - stream%64))
 //@   guarantee inuseStreams: new_val == old_val - 1
-//@   ensures[C08] inuse == streams_cas_done
-//@   ensures[C08] inuse ==> streams_cas_count == 1 && inuseStreams_add_count == 1 && inuseStreams_add_sum == -1
-//@   ensures[C08] !inuse ==> streams_cas_count == 0 && inuseStreams_add_count == 0
+//@   ensures[C01,C08] inuse == streams_cas_done
+//@   ensures[C01,C08] inuse ==> streams_cas_count == 1 && inuseStreams_add_count == 1 && inuseStreams_add_sum == -1
+//@   ensures[C01,C08] !inuse ==> streams_cas_count == 0 && inuseStreams_add_count == 0
 //@   loop 0: invariant !streams_cas_done && streams_cas_count == 0 && inuseStreams_add_count == 0 && inuseStreams_add_sum == 0
 //@   loop 0: invariant bucket&mask == mask
 
